@@ -368,6 +368,20 @@ opts_types = [
 bigint_stubs = cb.items("stub", "util", only=["new", "checked_add", "checked_sub", "checked_mul", "checked_mod", "checked_into", "checked_into_nonzero_usize", "maybe_into", "slice", "size_or_min_size"], with_cmp=True)
 
 
+# ---- constants
+SYM = "final(defs).symbols.defs@[(ast_symbol.item_ref->0).0 as int]->0"
+OSYM = "old(defs).symbols.defs@[(ast_symbol.item_ref->0).0 as int]->0"
+resolve_constant = Fn(
+    "src/asm/resolver/constant.rs", "resolve_constant", slot="resolver", ret="res", props=["C02", "C03", "C15"],
+    requires=[C("symbol_defined", "defined(&old(defs).symbols, ast_symbol.item_ref)", ["C03"]),
+              C("is_constant", "ast_symbol.kind is Constant", ["C03"])],
+    ensures=pass_contract() + [
+        C("resolved_means_unchanged_unless_frozen", "res == %s && !%s.resolved ==> expr::value_eq(%s.value, %s.value)" % (STABLE, SYM, SYM, OSYM), ["C02"]),
+        C("frozen_only_in_first_pass_when_statically_known", "%s.resolved && !%s.resolved ==> ctx.is_first_iteration && opts.optimize_statically_known && %s.value_statically_known" % (SYM, OSYM, OSYM), ["C02", "C08"]),
+    ],
+    rewrites=[Rewrite(r"println!\((?:[^()]|\((?:[^()]|\([^()]*\))*\))*\);", "", regex=True, rule="R7", why="debug printing statement deleted", count=2)],
+)
+
 # ---- instructions: the stability check around resolve_encoding (C02)
 FIN = "src/asm/resolver/instruction.rs"
 resolve_encoding_stub = Fn(FIN, "resolve_encoding", slot="resolver", mode="stub", ret="res", ensures=[
@@ -449,9 +463,9 @@ UNIT = Unit(
     "U-resolver", "u_resolver/skeleton.rs",
     items=COMMON + [
               bits_until_alignment, can_guess, get_output_position, get_address, eval_address, advance_address,
-              merge, iter_new, iter_next, resolve_constant_stub, resolve_once,
+              merge, iter_new, iter_next, resolve_once,
               resolve_label, resolve_res, resolve_align, resolve_addr, resolve_assert, eval_stub, eval_certain_stub, deflist_define, bankdef_define,
-              asm_query_type, asm_result_type, asm_resolve_once_stub, asm_resolve_iteratively, resolve_data_element, resolve_encoding_stub, resolve_instruction] + value_stubs2 + value_verified,
+              asm_query_type, asm_result_type, asm_resolve_once_stub, asm_resolve_iteratively, resolve_data_element, resolve_encoding_stub, resolve_instruction, resolve_constant] + value_stubs2 + value_verified,
     serves=["C01", "C02", "C03", "C06", "C09", "C19"],
     description="asm::resolver: address arithmetic (iter.rs), one resolution pass (resolve_once) and the per-item resolvers for labels, #res, #align, #addr, #assert",
 )
